@@ -136,12 +136,18 @@ type c11Case struct {
 	// ClientCert: the client presents a (self-signed, unverified) certificate
 	ClientAuth tls.ClientAuthType
 	ClientCert bool
+	// Pipelined: the start-up packet (the password) and the whole session are sent in ONE write, without waiting
+	// for any answer
+	Pipelined bool
 }
 
 func (c c11Case) String() string {
 	var names []string
 	for _, l := range c.Hist {
 		names = append(names, l.Name)
+	}
+	if c.Pipelined {
+		return fmt.Sprintf("tls=%s auth=%s client=%s session=%v sent in one write together with the start-up packet", c.Cfg, c.Auth, c.Behave, names)
 	}
 	if c.ClientAuth != 0 || c.ClientCert {
 		return fmt.Sprintf("tls=%s server_client_auth=%v client_presents_certificate=%v auth=%s-password client=%s session=%v", c.Cfg, c.ClientAuth, c.ClientCert, c.Auth, c.Behave, names)
@@ -155,6 +161,18 @@ func (c c11Case) String() string {
 	return fmt.Sprintf("tls=%s client=%s session=%v", c.Cfg, c.Behave, names)
 }
 
+// c11Flight is the whole client side of a pipelined session as one byte string.
+func c11Flight(c c11Case) []byte {
+	b := pgproto.Startup("user", "alice")
+	if c.Auth != "" {
+		b = append(b, pgproto.Password(c.Auth)...)
+	}
+	for _, l := range c.Hist {
+		b = append(b, l.Bytes...)
+	}
+	return b
+}
+
 // plainTranscript serves the history on a plaintext connection of an identically configured server.
 func c11Plain(c c11Case) ([]string, []string, string) {
 	rec := &script.Rec{}
@@ -164,6 +182,11 @@ func c11Plain(c c11Case) ([]string, []string, string) {
 	}
 	defer one.Stop()
 	var all []byte
+	if c.Pipelined {
+		out, _ := one.Step(c11Flight(c))
+		t, _ := harness.CanonTranscript(out)
+		return t, cbSummary(rec.Evs), ""
+	}
 	out, stp := one.Step(pgproto.Startup("user", "alice"))
 	all = append(all, out...)
 	if c.Auth != "" && stp == memnet.Parked {
@@ -442,11 +465,18 @@ func c11RunInner(c c11Case) explore.Result {
 		st2 = step(pgproto.SSLRequest())
 		noCallback("second SSLRequest inside TLS")
 	default:
-		st2 = step(pgproto.Startup("user", "alice"))
-		if c.Auth != "" && st2 == memnet.Parked {
-			st2 = step(pgproto.Password(c.Auth))
+		if c.Pipelined {
+			st2 = step(c11Flight(c))
+		} else {
+			st2 = step(pgproto.Startup("user", "alice"))
+			if c.Auth != "" && st2 == memnet.Parked {
+				st2 = step(pgproto.Password(c.Auth))
+			}
 		}
 		for _, l := range c.Hist {
+			if c.Pipelined {
+				break
+			}
 			if st2 != memnet.Parked {
 				break
 			}
@@ -497,7 +527,7 @@ func init() {
 		ID:               "C11",
 		Level:            "exploration",
 		Technique:        "exhaustive enumeration of (server TLS configuration x client behaviour around the SSLRequest x session history) with a real crypto/tls client over a tapped in-memory transport; raw bytes judged structurally (TLS record framing), decrypted stream differentially against the plaintext equivalent",
-		Rule:             "TLS configuration {none, empty config, empty non-nil certificate slice (with / without capacity), with certificate} x client behaviour {SSLRequest then handshake, SSLRequest with startup+Query stuffed into the same segment, SSLRequest with surplus body, plaintext instead of a handshake, second SSLRequest, CancelRequest after the negotiation} x all session histories of length <= 2 over {Query ok, Query error, Parse+Bind+Execute+Sync, COPY-in, oversized, Terminate}; cleartext authentication (accepted / rejected) over the upgraded connection; servers requesting / requiring a client certificate x clients presenting an unverified one x authentication none / accepted / rejected; a session arriving after 1..40 earlier clients failed their handshakes on the same server; configured limits {1 KiB, 16 KiB, 64 KiB} x Query / Bind messages with bodies of L-1, L, L+1, 2L, 16383, 16384, 16385, 20000, 70000 bytes over TLS against the plaintext equivalent; non-trivial = cases that negotiate (refused or upgraded)",
+		Rule:             "TLS configuration {none, empty config, empty non-nil certificate slice (with / without capacity), with certificate} x client behaviour {SSLRequest then handshake, SSLRequest with startup+Query stuffed into the same segment, SSLRequest with surplus body, plaintext instead of a handshake, second SSLRequest, CancelRequest after the negotiation} x all session histories of length <= 2 over {Query ok, Query error, Parse+Bind+Execute+Sync, COPY-in, oversized, Terminate}; cleartext authentication (accepted / rejected) over the upgraded connection; whole sessions of <= 2 letters sent in one write together with the start-up packet; servers requesting / requiring a client certificate x clients presenting an unverified one x authentication none / accepted / rejected; a session arriving after 1..40 earlier clients failed their handshakes on the same server; configured limits {1 KiB, 16 KiB, 64 KiB} x Query / Bind messages with bodies of L-1, L, L+1, 2L, 16383, 16384, 16385, 20000, 70000 bytes over TLS against the plaintext equivalent; non-trivial = cases that negotiate (refused or upgraded)",
 		Assumptions:      []string{"cryptographic strength is not judged: only record framing on the wire and the decrypted plaintext", "behaviour of a repeated SSLRequest is only required to leak nothing and to run no callback", "crypto/tls client and server goroutines run freely; the verdict depends on byte structure and transcripts only"},
 		Enumerate:        c11Enumerate,
 		Bounds:           func(tier string) map[string]any { return map[string]any{"session_depth": c11Depth(tier)} },
@@ -540,6 +570,20 @@ func c11Enumerate(tier string, emit explore.Emit) {
 				emit(explore.Case{Family: "tls-auth", Size: 2 + len(hist), Desc: func() any { return c.String() }, Run: func() explore.Result { return c11Run(c) }})
 			}
 		}
+	}
+	// the whole session in one write behind the start-up packet
+	for _, auth := range []string{"", "good", "bad"} {
+		forShapes(len(letters), 2, func(sh []int) {
+			if len(sh) == 0 {
+				return
+			}
+			hist := make([]c11Letter, len(sh))
+			for i, s := range sh {
+				hist[i] = letters[s]
+			}
+			c := c11Case{Cfg: "certs", Behave: "ssl-handshake", Hist: hist, Auth: auth, Pipelined: true}
+			emit(explore.Case{Family: "tls-pipelined", Size: 3 + len(hist), Desc: func() any { return c.String() }, Run: func() explore.Result { return c11Run(c) }})
+		})
 	}
 	for _, c := range c11ClientCertCases() {
 		c := c
